@@ -101,6 +101,29 @@ def run(tier: str, seed: int) -> Report:
             if want:
                 raise Machinery(f"negative control {c} did not violate {want} (got {res.violated})")
             rep.violate(f"design/{res.violated}", {"cfg": c}, {"cex": res.cex[-6:]})
+    # the design layer refines DbWriterInd; Apalache discharges its inductive invariant (rows \o queue = 1..nlogged)
+    # for ANY number of transient failures and behaviours of any length, N <= 8 (DESIGN 9.10)
+    res = tlc.run_tlc("MC_DbWriterRefine", "MC_DbWriterRefine.cfg", workers=1, timeout=300)
+    rep.add_tlc(res, "MC_DbWriterRefine (design refines DbWriterInd)")
+    if not res.ok:
+        rep.violate(f"design/refinement/{res.violated}", {"where": "DbWriter -> DbWriterInd"}, {"cex": res.cex[-6:]})
+    import concurrent.futures as _cf
+    jobs = [("base: Init => IndInv", "MC_DbWriterInd", "Init", "IndInv", 0, True),
+            ("step: IndInv /\\ Next => IndInv'", "MC_DbWriterInd", "IndInit", "IndInv", 1, True),
+            ("use: IndInv => W1..W3 at the end and as a prefix at every moment", "MC_DbWriterInd", "IndInit", "Safety", 0, True),
+            ("negative control: re-queue at the tail breaks the step", "MC_DbWriterInd_dev", "IndInit", "IndInv", 1, False)]
+    with _cf.ThreadPoolExecutor(max_workers=4) as pool:
+        futs = [pool.submit(tlc.run_apalache, mod, init=i, inv=v, length=ln, cinit="ConstInit", timeout=1200)
+                for (_l, mod, i, v, ln, _w) in jobs]
+        apa = []
+        for (label, mod, i, v, ln, want_ok), f in zip(jobs, futs):
+            a = f.result()
+            apa.append({"obligation": label, "module": mod, "outcome": "NoError" if a.ok else "Error", "wall_s": round(a.wall_s, 1)})
+            if want_ok and not a.ok:
+                rep.violate("design/inductive-invariant", {"where": "DbWriterInd", "obligation": label}, {"out": a.out[-1500:]})
+            if not want_ok and a.ok:
+                raise Machinery(f"apalache negative control did not fail: {label}")
+    rep.extra["apalache"] = {"version": "0.58.0", "N": "0..8", "Faults": "any natural number", "obligations": apa}
     n, k = (4, 5) if tier == "quick" else (5, 8)
     traces = []
     tmp = Path(tempfile.mkdtemp(prefix="x03-"))
